@@ -260,6 +260,11 @@ fn judge_svd3(case: &Case, l: &mut Local) {
             }
             l.check("rank with a zero tolerance counts the directions of non-zero extent", "", b.rank(0.0) == positive && (rank > 0 || b.rank(0.0) == 0), mk, || format!("rank(0) {} for singular values {:?}", b.rank(0.0), b.sv));
         }
+        // standard deviations are the roots of the variances; vectors (differences of points) go to the basis
+        // without the centre
+        let sd_ok = (0..3).all(|i| (b.basis_stdevs()[i] - b.basis_variances()[i].sqrt()).abs() <= 1e-12 * (1.0 + b.sv[0]));
+        let vec_ok = pts.iter().all(|p| ((b.point_to_basis(p) - b.point_to_basis(&pts[0])) - b.vec_to_basis(&(p - pts[0]))).norm() <= 1e-10);
+        l.check("standard deviations are the roots of the variances and difference vectors map like differences of points", "", sd_ok && vec_ok, mk, || format!("stdevs {:?} variances {:?}", b.basis_stdevs(), b.basis_variances()));
         let rt = pts.iter().map(|p| d3(&b.point_from_basis(&b.point_to_basis(p)), p)).fold(0.0, f64::max);
         l.check("points round-trip through the basis", "", rt <= 1e-10, mk, || format!("{:e}", rt));
         l.outcome(hash_of(&(rank, w.is_some())));
